@@ -122,9 +122,11 @@ def closed_split_helpers():
         r = [int(x) for x in order_splits(s, e, u)]
         if any(not (s < x < e) or x % u != 0 for x in r) or len(set(r)) != len(r):
             return False, n, {"input": [s, e, u], "what": "order_splits gives %r (must lie strictly inside and on the unit grid, without repeats)" % r}
-    for divs in (1, 2, 4, 6, 12, 16, 480):
-        for start in (0, 1, divs):
-            for length in list(range(1, 8 * divs + 1))[:: max(1, divs // 8)]:
+    spans = [(divs, start, length) for divs in (1, 2, 4, 6, 12, 16, 480) for start in (0, 1, divs) for length in list(range(1, 8 * divs + 1))[:: max(1, divs // 8)]]
+    # long notes that begin off the coarse grid: they need two or three split points (the quantifier's "two to four tied values")
+    spans += [(divs, start, length) for divs in (2, 4) for start in (1, 3, 5) for length in range(8 * divs + 1, 18 * divs + 1)]
+    for divs, start, length in spans:
+            if True:
                 n += 1
                 end = start + length
                 r = find_tie_split(start, end, divs)
@@ -265,6 +267,11 @@ def _note_parts(tier):
         p.set_quarter_duration(0, 4)
         return p
     out.append(("divisions_set_for_a_later_stretch_first", late_then_early))
+    # a voice that is absent from a whole bar while the other one stops early / starts late in that bar (whole-bar rest next to partial rests)
+    out.append(("a_voice_rests_for_a_whole_bar_while_the_other_leaves_gaps", lambda: G.build_part("P", 4, notes=[("a0", 0, 8, "C", None, 5, 1, 1), ("a1", 8, 8, "D", None, 5, 1, 1), ("b0", 0, 16, "C", None, 3, 2, 1),
+                                                                                                         ("a2", 16, 12, "E", None, 5, 1, 1), ("a3", 32, 16, "F", None, 5, 1, 1), ("b1", 32, 16, "D", None, 3, 2, 1),
+                                                                                                         ("a4", 50, 14, "G", None, 5, 1, 1), ("b2", 64, 16, "E", None, 3, 2, 1), ("a5", 64, 16, "A", None, 5, 1, 1)],
+                                                                                                 measures=[(0, 16), (16, 32), (32, 48), (48, 64), (64, 80)])))
     # a voice entering after a silence whose length is not one notated value (5 sixteenths; 17 thirty-seconds)
     out.append(("voice_enters_after_a_composite_silence", lambda: G.build_part("P", 8, notes=[("a", 10, 22, "C", None, 4, 1, 1), ("b", 32, 32, "D", None, 4, 1, 1), ("c", 81, 15, "E", None, 4, 1, 1), ("lo", 0, 96, "C", None, 3, 2, 1)],
                                                                               measures=[(0, 32), (32, 64), (64, 96)])))
@@ -326,11 +333,12 @@ def bounded(b):
                     if sd and n.duration and isinstance(sd, dict) and sd.get("type") and _numeric(sd, _q(part, n)) != n.duration:
                         good, what = False, "note %s duration %d but symbolic %r = %s under %d divisions (read as %r before the change)" % (n.id, n.duration, sd, _numeric(sd, _q(part, n)), n.start.quarter, first.get(n.id))
                 b.case("normalise/assigned_symbolic_durations_evaluate_to_numeric", good, case, what)
-        for op_name in ("tie_notes", "find_tuplets", "fill_rests", "sanitize_part", "tie_then_tuplets"):
+        for op_name in ("tie_notes", "find_tuplets", "fill_rests", "fill_rests_not_measurewise", "sanitize_part", "tie_then_tuplets"):
             case = {"part": name, "op": op_name}
             part = mk()
             before = _sounding(part)
             ops = {"tie_notes": [sc.tie_notes], "find_tuplets": [sc.find_tuplets], "fill_rests": [sc.fill_rests], "sanitize_part": [sc.sanitize_part],
+                   "fill_rests_not_measurewise": [lambda p_: sc.fill_rests(p_, measurewise=False)],
                    "tie_then_tuplets": [sc.tie_notes, sc.find_tuplets]}[op_name]
             ok = True
             for op in ops:
